@@ -64,7 +64,9 @@ def check(prop, tier, seed):
         raise Infra("OrcaConc with disjoint keys violates %s" % res.violated)
     run.log("design: 2 unlocked clients on disjoint keys, %d distinct states: every reply equals the single-map reply" % res.distinct)
     pl = OrcaPipeline(run, ["ReplyOK", "RefEq", "Subset"])
-    shapes = [SHAPES2[0], SHAPES2[1], SHAPES2[2], SHAPES1[0]] if quick else SHAPES2 + SHAPES1
+    # SHAPES1[2]: the pooled handler WITHOUT the locking wrapper (which would split multi-key gets and hide
+    # what two connections' requests do to each other inside one backend batch)
+    shapes = [SHAPES2[0], SHAPES2[1], SHAPES2[2], SHAPES1[0], SHAPES1[2]] if quick else SHAPES2 + SHAPES1
     exe = run.build_harness()
     rexe = run.build_harness(race=True)
     jobs = []
